@@ -8,7 +8,7 @@
    for the code and only used by the proofs (NoDup).
 
    Modelled (function of the C++ -> definition here):
-     Objects::read_xref (QPDF_objects.cc)                              c4_xwalk / c4_read_xref
+     Objects::read_xref (QPDF_objects.cc)                              c4_xlocate, c4_xwalk / c4_read_xref
      Pages::cache /Parent climb, Pages::getAllPagesInternal            c4_pclimb, c4_pwalk / c4_pages
      NNTreeIterator::deepen, NNTreeIterator::increment (forward
        iteration of a whole tree), NNTreeImpl::validate / repair / findInternal
@@ -59,59 +59,103 @@ Fixpoint c4_zfind {A : Type} (g : list (Z * A)) (k : Z) : option A :=
   end.
 
 (* ------------------------------------------------------------------ (a) Objects::read_xref
-   A file is a map from byte offsets to what a section reader finds there.  Offsets that are not keys
-   (beyond the end of the file, negative, garbage) make read_xrefStream throw "xref not found" (a seek error
-   for a negative offset is translated to the same class by parse()).  Two offsets that differ only by white
-   space in front of the same table are two keys with the same contents. *)
+   A file is a list of cross-reference sections, each keyed by the offset S of its first byte ("xref" resp. the
+   "n g obj" of a cross-reference stream) and carrying the number of white-space bytes directly in front of it
+   (c4x_lead) and, for a table, the number of white-space bytes after the keyword (c4x_gap).
+
+   read_xref(off) seeks to off and skips white space; the section that is then read is the one whose start S has
+   S - lead <= off <= S (c4_xlocate); any other offset (beyond the end of the file, negative, inside an object,
+   garbage) makes read_xrefStream throw "xref not found" (a seek error for a negative offset is translated to the
+   same class by parse()).  What the code does with the k = S - off skipped bytes:
+     * what enters `visited` is the offset the function was ASKED to read (off), not the position after the skip;
+       the test after each section looks up the raw /Prev value in that set.  So S and S - 1 are different
+       members, and a section can be entered a second time through another white-space alias - but its /Prev is
+       then a member already, and the loop is reported after that second reading (C04GuardProofs.v);
+     * a table: "extraneous whitespace seen before xref" is warned when k > 0, and read_xrefTable is started at
+       off + skip with the UNSKIPPED offset (skip = 4 + the white space after the keyword that fits into the
+       6-byte buffer, i.e. min(gap, 2)): it finds the first subsection line iff k <= min(gap, 2), otherwise it
+       starts inside the keyword and throws "xref syntax invalid";
+     * a stream: read_xrefStream(off) tokenises from off, every k works and nothing is warned.
+   `after_skip` = true is the VARIANT in which the position after the skip is what enters `visited`; it is not
+   what the code does and is here only for xref_walk_after_skip_diverges (the guard is lost for k > 0). *)
 Inductive c4_xkind := C4xTable | C4xStream.
 Record c4_xsec := mkC4xsec {
   c4x_kind : c4_xkind;
   c4x_bad : bool;        (* the section or its trailer/dictionary makes the reader throw damagedPDF *)
   c4x_stm : Z;           (* /XRefStm of a table's trailer, 0 = absent *)
-  c4x_prev : Z           (* /Prev, 0 = absent *)
+  c4x_prev : Z;          (* /Prev, 0 = absent *)
+  c4x_lead : Z;          (* white-space bytes directly in front of the section *)
+  c4x_gap : Z            (* table: white-space bytes after the keyword "xref" (0: not recognised as a table) *)
 }.
 Inductive c4_xres := C4xOk | C4xLoop | C4xNotFound | C4xDamaged | C4xFuel.
 
-(* reads = offsets of the sections whose entries were inserted, most recent first (a table, then its /XRefStm) *)
-Fixpoint c4_xwalk (fuel : nat) (g : list (Z * c4_xsec)) (off : Z) (visited reads : list Z) : c4_xres * list Z :=
+(* seek(off), skip white space: the section the file position then stands on *)
+Fixpoint c4_xlocate (g : list (Z * c4_xsec)) (off : Z) : option (Z * c4_xsec) :=
+  match g with
+  | [] => None
+  | (a, s) :: g' => if ((a - c4x_lead s <=? off) && (off <=? a))%Z then Some (a, s) else c4_xlocate g' off
+  end.
+
+(* result of a walk: outcome; starts of the sections whose entries were inserted, most recent first (a table, then its
+   /XRefStm); the `visited` set as a list, most recent first (= the offsets read_xref was asked to read, in order);
+   number of "extraneous whitespace seen before xref" warnings *)
+Record c4_xout := mkC4xout { c4xo_res : c4_xres; c4xo_reads : list Z; c4xo_visited : list Z; c4xo_ws : N }.
+
+(* (void)read_xrefStream(/XRefStm): its /Prev is ignored; white space in front of it is tokenised away *)
+Definition c4_xstm (g : list (Z * c4_xsec)) (stm : Z) (reads : list Z) : c4_xres * list Z :=
+  if (stm =? 0)%Z then (C4xOk, reads)
+  else match c4_xlocate g stm with
+       | None => (C4xNotFound, reads)
+       | Some (a', t) =>
+           match c4x_kind t with
+           | C4xTable => (C4xNotFound, reads)
+           | C4xStream => if c4x_bad t then (C4xDamaged, reads) else (C4xOk, a' :: reads)
+           end
+       end.
+
+Fixpoint c4_xwalk_v (after_skip : bool) (fuel : nat) (g : list (Z * c4_xsec)) (off : Z) (visited reads : list Z) (ws : N)
+  : c4_xout :=
   match fuel with
-  | O => (C4xFuel, reads)
+  | O => mkC4xout C4xFuel reads visited ws
   | S f =>
-    let visited := off :: visited in                          (* visited.insert(xref_offset) *)
-    match c4_zfind g off with
-    | None => (C4xNotFound, reads)
-    | Some s =>
-      if c4x_bad s then (C4xDamaged, reads)
-      else
-        let after_stm :=
-          match c4x_kind s with
-          | C4xStream => (C4xOk, off :: reads)
-          | C4xTable =>
-              if (c4x_stm s =? 0)%Z then (C4xOk, off :: reads)
-              else match c4_zfind g (c4x_stm s) with        (* (void)read_xrefStream(/XRefStm): its /Prev is ignored *)
-                   | None => (C4xNotFound, off :: reads)
-                   | Some t =>
-                       match c4x_kind t with
-                       | C4xTable => (C4xNotFound, off :: reads)
-                       | C4xStream => if c4x_bad t then (C4xDamaged, off :: reads)
-                                      else (C4xOk, c4x_stm s :: off :: reads)
-                       end
-                   end
-          end in
-        match after_stm with
-        | (C4xOk, reads') =>
+    match c4_xlocate g off with
+    | None => mkC4xout C4xNotFound reads (off :: visited) ws
+    | Some (a0, s) =>
+      let k := (a0 - off)%Z in
+      let visited := (if after_skip then a0 else off) :: visited in       (* visited.insert(xref_offset) *)
+      let is_table := match c4x_kind s with C4xTable => (1 <=? c4x_gap s)%Z | C4xStream => false end in
+      let ws := if is_table && (0 <? k)%Z then ws + 1 else ws in          (* warned before the table is read *)
+      match c4x_kind s with
+      | C4xTable =>
+          if negb is_table then mkC4xout C4xNotFound reads visited ws      (* "xref" not followed by white space *)
+          else if (Z.min (c4x_gap s) 2 <? k)%Z then mkC4xout C4xDamaged reads visited ws   (* "xref syntax invalid" *)
+          else if c4x_bad s then mkC4xout C4xDamaged reads visited ws
+          else
+            match c4_xstm g (c4x_stm s) (a0 :: reads) with
+            | (C4xOk, reads') =>
+                let prev := c4x_prev s in
+                if c4_zmem prev visited then mkC4xout C4xLoop reads' visited ws    (* "loop detected following xref tables" *)
+                else if (prev =? 0)%Z then mkC4xout C4xOk reads' visited ws         (* while (xref_offset) *)
+                else c4_xwalk_v after_skip f g prev visited reads' ws
+            | (r, reads') => mkC4xout r reads' visited ws
+            end
+      | C4xStream =>
+          if c4x_bad s then mkC4xout C4xDamaged reads visited ws
+          else
+            let reads' := a0 :: reads in
             let prev := c4x_prev s in
-            if c4_zmem prev visited then (C4xLoop, reads')    (* "loop detected following xref tables" *)
-            else if (prev =? 0)%Z then (C4xOk, reads')         (* while (xref_offset) *)
-            else c4_xwalk f g prev visited reads'
-        | r => r
-        end
+            if c4_zmem prev visited then mkC4xout C4xLoop reads' visited ws
+            else if (prev =? 0)%Z then mkC4xout C4xOk reads' visited ws
+            else c4_xwalk_v after_skip f g prev visited reads' ws
+      end
     end
   end.
 
+Definition c4_xwalk := c4_xwalk_v false.
+
 (* startxref value 0 / not found: "can't find startxref" (same class as not found) *)
-Definition c4_read_xref (g : list (Z * c4_xsec)) (start : Z) : c4_xres * list Z :=
-  if (start =? 0)%Z then (C4xNotFound, []) else c4_xwalk (S (length g)) g start [] [].
+Definition c4_read_xref (g : list (Z * c4_xsec)) (start : Z) : c4_xout :=
+  if (start =? 0)%Z then mkC4xout C4xNotFound [] [] 0 else c4_xwalk (S (length g)) g start [] [] 0.
 
 (* ------------------------------------------------------------------ (b) the page tree *)
 Record c4_pnode := mkC4pnode {
@@ -748,3 +792,162 @@ Definition c4_trap_cli (e : c4_exn) (warnings : bool) : N :=
   | C4eNone => if warnings then 3 else 0
   | _ => 2
   end.
+
+(* ------------------------------------------------------------------ (i) qpdf JSON import: which exception can leave importJSON
+   QPDF::importJSON (QPDF_json.cc) runs JSON::parse with the JSONReactor and translates at its boundary:
+       try { JSON::parse(is, reactor); } catch (std::runtime_error& e) { throw std::runtime_error(name + ": " + e.what()); }
+       if (reactor.anyErrors()) throw std::runtime_error(name + ": errors found in JSON");
+   so QPDFExc, QPDFUsage, QPDFSystemError and every other std::runtime_error leave as std::runtime_error, while a
+   std::logic_error (or anything else) thrown below passes through UNTRANSLATED.  The one place below where the input
+   decides whether a precondition of the library holds is JSONReactor::replaceObject -> QPDF::replaceObject:
+       "value":  if (replacement.isIndirect()) { error(...); return true; }            (fix 4e9cbd25)
+       reactor:  if (replacement.isIndirect() && !(replacement.isStream() && replacement.getObjGen() == og)) { error(...); return; }
+       library:  if (!oh || (oh.isIndirect() && !(oh.isStream() && oh.getObjGen() == og))) throw std::logic_error(...)
+   The model keeps, per object id, whether the object is a stream at the moment a member is processed (isStream()
+   resolves the reference: a stream defined EARLIER in the same text or present in the file being updated counts, a
+   forward reference does not), which is all the two tests look at. *)
+Record c4_jrepl := mkC4jrepl {
+  c4j_init : bool;       (* the handle is initialised *)
+  c4j_indirect : bool;   (* isIndirect() *)
+  c4j_stream : bool;     (* isStream() *)
+  c4j_same : bool        (* getObjGen() == og of the object being defined *)
+}.
+Definition c4_jr_refuses (r : c4_jrepl) : bool := c4j_indirect r && negb (c4j_stream r && c4j_same r).
+Definition c4_qpdf_replace_throws (r : c4_jrepl) : bool :=
+  negb (c4j_init r) || (c4j_indirect r && negb (c4j_stream r && c4j_same r)).
+
+(* members of one "obj:n g R" entry, as far as errors and stream-ness go *)
+Inductive c4_jmember :=
+| C4jValRef (n g : N)                    (* "value": "n g R" *)
+| C4jValDirect (ok : bool)               (* "value": anything else; ok = false: makeObject reports an error (-> null) *)
+| C4jStream (isdict dict data datafile suberr : bool)
+                                         (* "stream": a dictionary? with "dict" / "data" / "datafile"; suberr: a member has the wrong type *)
+| C4jIgnored.                            (* any other key *)
+
+Definition c4_jog_eqb (a b : N * N) : bool := (fst a =? fst b) && (snd a =? snd b).
+Definition c4_jis_stream (tbl : list (N * N)) (og : N * N) : bool := existsb (c4_jog_eqb og) tbl.
+Definition c4_jset_stream (tbl : list (N * N)) (og : N * N) (b : bool) : list (N * N) :=
+  let t := filter (fun x => negb (c4_jog_eqb og x)) tbl in if b then og :: t else t.
+
+(* state while one entry is read: stream table, error flag, number of refused "value" references,
+   exception thrown so far (C4eNone = none), flags saw_value / saw_stream / saw_dict / saw_data / saw_datafile / needs_data *)
+Record c4_jst := mkC4jst {
+  c4js_tbl : list (N * N); c4js_err : bool; c4js_refused : N; c4js_exn : c4_exn;
+  c4js_value : bool; c4js_stream : bool; c4js_dict : bool; c4js_data : bool; c4js_datafile : bool; c4js_needs : bool }.
+
+(* JSONReactor::replaceObject(replacement) for the object og *)
+Definition c4_jreplace (og : N * N) (r : c4_jrepl) (becomes_stream : bool) (s : c4_jst) : c4_jst :=
+  if c4_jr_refuses r then
+    mkC4jst (c4js_tbl s) true (c4js_refused s + 1) (c4js_exn s)
+            (c4js_value s) (c4js_stream s) (c4js_dict s) (c4js_data s) (c4js_datafile s) (c4js_needs s)
+  else if c4_qpdf_replace_throws r then
+    mkC4jst (c4js_tbl s) (c4js_err s) (c4js_refused s) C4eLogic
+            (c4js_value s) (c4js_stream s) (c4js_dict s) (c4js_data s) (c4js_datafile s) (c4js_needs s)
+  else
+    mkC4jst (c4_jset_stream (c4js_tbl s) og becomes_stream) (c4js_err s) (c4js_refused s) (c4js_exn s)
+            (c4js_value s) (c4js_stream s) (c4js_dict s) (c4js_data s) (c4js_datafile s) (c4js_needs s).
+
+Definition c4_jwith_err (e : bool) (s : c4_jst) : c4_jst :=
+  mkC4jst (c4js_tbl s) (c4js_err s || e) (c4js_refused s) (c4js_exn s)
+          (c4js_value s) (c4js_stream s) (c4js_dict s) (c4js_data s) (c4js_datafile s) (c4js_needs s).
+
+(* dictionaryItem in st_object_top (an exception already thrown ends the parse: later members are not seen) *)
+Definition c4_jmember_step (og : N * N) (s : c4_jst) (m : c4_jmember) : c4_jst :=
+  match c4js_exn s with
+  | C4eNone =>
+    match m with
+    | C4jValRef n g =>
+      (* since fix 4e9cbd25 (C14-F4) the "value" member tests replacement.isIndirect() itself and reports the error before
+         JSONReactor::replaceObject is called: every reference is refused, also the one to the stream itself (which
+         replaceObject's own test would let through - that exception is meant for the stream created for "stream") *)
+      mkC4jst (c4js_tbl s) true (c4js_refused s + 1) (c4js_exn s)
+              true (c4js_stream s) (c4js_dict s) (c4js_data s) (c4js_datafile s) (c4js_needs s)
+    | C4jValDirect ok =>
+      let s1 := mkC4jst (c4js_tbl s) (c4js_err s || negb ok) (c4js_refused s) (c4js_exn s)
+                        true (c4js_stream s) (c4js_dict s) (c4js_data s) (c4js_datafile s) (c4js_needs s) in
+      c4_jreplace og (mkC4jrepl true false false false) false s1
+    | C4jStream isdict dict data datafile suberr =>
+      if negb isdict then                                  (* "stream" must be a dictionary *)
+        mkC4jst (c4js_tbl s) true (c4js_refused s) (c4js_exn s)
+                (c4js_value s) true (c4js_dict s) (c4js_data s) (c4js_datafile s) (c4js_needs s)
+      else
+        let was := c4_jis_stream (c4js_tbl s) og in
+        let s1 := mkC4jst (c4js_tbl s) (c4js_err s || suberr) (c4js_refused s) (c4js_exn s)
+                          (c4js_value s) true (c4js_dict s || dict) (c4js_data s || data) (c4js_datafile s || datafile) (negb was) in
+        if was then s1
+        else c4_jreplace og (mkC4jrepl true true true true) true s1     (* qpdf::Stream(pdf, og, newDictionary(), 0, 0) *)
+    | C4jIgnored => s
+    end
+  | _ => s
+  end.
+
+(* containerEnd with from_state = st_object_top *)
+Definition c4_jentry_end_err (s : c4_jst) : bool :=
+  Bool.eqb (c4js_value s) (c4js_stream s) ||
+  (c4js_stream s && (negb (c4js_dict s) || (Bool.eqb (c4js_data s) (c4js_datafile s) && (c4js_needs s || c4js_datafile s)))).
+
+(* one member of qpdf[1]: a well-formed "obj:n g R" key whose value is a JSON object, or anything else (error) *)
+Inductive c4_jentry :=
+| C4jObj (n g : N) (members : list c4_jmember)
+| C4jBadEntry                                  (* bad key, or the value is not a JSON object: error(...) *)
+| C4jThrows (e : c4_exn).                      (* the JSON parser or a callee throws here (syntax error: runtime_error; "n:" key: QPDFExc) *)
+
+Definition c4_jentry_step (s : c4_jst) (e : c4_jentry) : c4_jst :=
+  match c4js_exn s with
+  | C4eNone =>
+    match e with
+    | C4jObj n g ms =>
+      let s0 := mkC4jst (c4js_tbl s) (c4js_err s) (c4js_refused s) (c4js_exn s) false false false false false false in
+      let s1 := fold_left (c4_jmember_step (n, g)) ms s0 in
+      match c4js_exn s1 with
+      | C4eNone => c4_jwith_err (c4_jentry_end_err s1) s1
+      | _ => s1
+      end
+    | C4jBadEntry => c4_jwith_err true s
+    | C4jThrows x => mkC4jst (c4js_tbl s) (c4js_err s) (c4js_refused s) x
+                             (c4js_value s) (c4js_stream s) (c4js_dict s) (c4js_data s) (c4js_datafile s) (c4js_needs s)
+    end
+  | _ => s
+  end.
+
+(* importJSON: (exception that leaves it, number of refused references, stream table at the end).
+   frame_err: an error reported outside qpdf[1] (missing "qpdf", versions, trailer ...) *)
+Definition c4_import_json (tbl : list (N * N)) (frame_err : bool) (es : list c4_jentry) : c4_exn * N * list (N * N) :=
+  let s := fold_left c4_jentry_step es (mkC4jst tbl frame_err 0 C4eNone false false false false false false) in
+  let x := match c4js_exn s with
+           | C4eNone => if c4js_err s then C4eRuntime else C4eNone
+           | C4eQPDFExc | C4eUsage | C4eRuntime => C4eRuntime     (* catch (std::runtime_error&) *)
+           | e => e                                                (* not translated *)
+           end in
+  (x, c4js_refused s, c4js_tbl s).
+
+(* ------------------------------------------------------------------ (j) Pl_PNGFilter's constructor: the size of the row buffers
+   columns, samples_per_pixel, bits_per_sample are uint32_t; bits_per_pixel and bpr are unsigned long long (no wrap for
+   32-bit factors); bytes_per_row is uint32_t and the two row buffers are allocated with `bytes_per_row + 1` elements -
+   an addition in uint32_t.  The range check accepts bpr = 2^32 - 1, for which the addition wraps to 0: both buffers have
+   size 0, `incoming` (decode) is 0, and decodeRow reads cur_row[0] and hands bytes_per_row bytes from cur_row + 1 to the
+   next pipeline (finding D-C04-png-row-wrap; `fixed` = true is the constructor after proposed_fixes/C04-png-row-wrap.diff,
+   which demands that bpr + 1 fits).  limit = global::Limits::png_max_memory(), 0 = none (the default outside fuzz mode). *)
+Record c4_png := mkC4png { c4png_bpr : Z; c4png_alloc : Z; c4png_incoming : Z }.
+Definition c4_png_ctor (fixed decode : bool) (limit columns spp bps : Z) : option c4_png :=
+  if (spp <? 1)%Z then None
+  else if negb ((bps =? 1) || (bps =? 2) || (bps =? 4) || (bps =? 8) || (bps =? 16))%Z then None
+  else
+    let bpp := (bps * spp)%Z in
+    if negb (bpp + 7 <? 4294967296)%Z then None
+    else
+      let bpr := ((columns * bpp + 7) / 8)%Z in
+      if ((bpr =? 0) || negb ((if fixed then bpr + 1 else bpr) <? 4294967296))%Z then None
+      else if ((0 <? limit) && (limit / 2 <? bpr))%Z then None
+      else Some (mkC4png bpr ((bpr + 1) mod 4294967296)%Z (if decode then ((bpr + 1) mod 4294967296)%Z else bpr)).
+
+(* does the entry "obj:n g R": { members } leave a NEW stream (the object was no stream before) for which neither "data" nor
+   "datafile" was seen, without any error having been reported?  Such a stream has no data provider: every later use
+   (QPDFWriter::write, JSON output, getStreamData) throws std::logic_error("pipeStreamData called for stream with no data").
+   containerEnd is meant to exclude it ("new stream must have exactly one of data or datafile"), but the flag it tests,
+   this_stream_needs_data, is assigned again by every "stream" member of the entry (finding C04-F-json-dup-stream). *)
+Definition c4_jentry_dataless (tbl : list (N * N)) (og : N * N) (ms : list c4_jmember) : bool :=
+  let s0 := mkC4jst tbl false 0 C4eNone false false false false false false in
+  let s1 := fold_left (c4_jmember_step og) ms s0 in
+  negb (c4_jis_stream tbl og) && c4_jis_stream (c4js_tbl s1) og &&
+  negb (c4js_data s1) && negb (c4js_datafile s1) && negb (c4js_err s1 || c4_jentry_end_err s1).
